@@ -401,6 +401,15 @@ def totalPotAmount (s : State) : Except Err Int :=
   | .error e => .error e
   | .ok ps => .ok (sumI s.bets + sumI (ps.map Pot.amount))
 
+/-- `hand is not None and (max_hand is None or max_hand <= hand)` for one pot, `max_hand` being
+    the best shown hand among the pot's eligible players -/
+def winsPot (hands : List (Option Int)) (hand : Option Int) (pot : Pot) : Bool :=
+  match hand with
+  | none => false
+  | some h => match maxOrNone (pot.players.map fun i => hands.getD i none) with
+    | none => true
+    | some m => decide (m ≤ h)
+
 /-- `can_win_now(i)` (2197-2301).  Evaluation order: boards, hand types, `get_up_hands`,
     `get_hand`, then every pot. -/
 def canWinNow (s : State) (p : Nat) : Except Err Bool :=
@@ -415,13 +424,7 @@ def canWinNow (s : State) (p : Nat) : Except Err Bool :=
         match s.pots cfg with
         | .error e => .error e
         | .ok ps =>
-          if ps.any (fun pot =>
-              let maxHand := maxOrNone (pot.players.map fun i => hands.getD i none)
-              match hand with
-              | none => false
-              | some h => match maxHand with
-                | none => true
-                | some m => m ≤ h) then .ok true
+          if ps.any (fun pot => winsPot hands hand pot) then .ok true
           else goTypes b ks
   let rec goBoards (bs : List Nat) : Except Err Bool :=
     match bs with
@@ -811,67 +814,86 @@ structure ShowPlan where
   player : Nat
 deriving Repr, DecidableEq
 
+/-- the player a show/muck refers to: the explicit one, else the head of the showdown queue
+    (state.py:5411-5427) -/
+def showPlayer (s : State) (i : Option Nat) : Except Err Nat :=
+  let streetNone := (s.street cfg).isNone
+  let p? : Except Err Nat := match i with
+    | some p => .ok p
+    | none =>
+      if streetNone then .error .valueError
+      else match s.showdownIndex cfg with
+        | some p => .ok p
+        | none => .error .assertionError
+  match p? with
+  | .error e => .error e
+  | .ok p =>
+    if p ≥ cfg.n then .error .indexError
+    else if !getB s.statuses p then .error .valueError
+    else if !streetNone && !s.showdown.contains p then .error .valueError
+    else .ok p
+
+/-- the three ways of calling `show_or_muck_hole_cards` (state.py:5429-5470): an explicit bool,
+    nothing (the engine decides: show iff all-in or can win now), or explicit cards -/
+def showExplicit (s : State) (arg : ShowArg) (p : Nat) :
+    Except Err (Verdict (Bool × Option (List Card × List Card × List Bool))) :=
+  let own := s.holeOf p
+  match arg with
+  | .status b => .ok ⟨(b, none), false⟩
+  | .none =>
+    if s.allIn then .ok ⟨(true, none), false⟩
+    else match s.canWinNow cfg env p with
+      | .error e => .error e
+      | .ok b => .ok ⟨(b, none), false⟩
+  | .cards cs =>
+    if cs.length > own.length then .error .valueError
+    else
+      let cards := cs ++ List.replicate (own.length - cs.length) Card.unknownCard
+      let hc := cards.filter Card.known
+      let hs := List.replicate hc.length true
+      let hc :=
+        if !s.streetIsLast cfg then
+          let count := own.length - hc.length
+          hc ++ ((own.filter Card.known).filter (fun c => !hc.contains c)).take count
+        else hc
+      let hc := hc ++ List.replicate (own.length - hc.length) Card.unknownCard
+      let hs := hs ++ List.replicate (own.length - hs.length) false
+      let extra := (dedup hc).filter (fun c => !own.contains c)
+      match s.verifyCardsConsumption cfg env (.cards extra) with
+      | .error e => .error e
+      | .ok v => .ok ⟨(true, some (cards, hc, hs)), v.warned⟩
+
+/-- shown cards, new hole cards and their facings (state.py:5472-5486) -/
+def showTriple (own : List Card) (status : Bool) (plan : Option (List Card × List Card × List Bool)) :
+    List Card × List Card × List Bool :=
+  match plan with
+  | some x => x
+  | none => if status then (own, own, List.replicate own.length true) else ([], [], [])
+
+/-- the final checks (state.py:5488-5523): the tournament must-show rule (all three python
+    branches raise ValueError), no unknown card shown, the length asserts, non-standard showdown -/
+def showFinal (s : State) (p : Nat) (status : Bool) (t : List Card × List Card × List Bool)
+    (warned : Bool) : Except Err (Verdict ShowPlan) :=
+  let own := s.holeOf p
+  if cfg.tournament && status && (t.1.filter Card.known).length < own.length then .error .valueError
+  else if (t.2.1.zip t.2.2).any (fun (c, st) => !c.known && st) then .error .valueError
+  else if status && !(t.1.length == t.2.1.length && t.2.1.length == own.length
+        && own.length == t.2.2.length && t.2.2.length == (s.holeStatusesOf p).length) then
+    .error .assertionError
+  else if (s.street cfg).isNone && (!status || !allB t.2.2) then .error .valueError
+  else .ok ⟨⟨status, t.1, t.2.1, t.2.2, p⟩, warned⟩
+
 /-- `verify_hole_cards_showing_or_mucking(status_or_hole_cards, player_index)` (5385-5525) -/
 def verifyShow (s : State) (arg : ShowArg) (i : Option Nat) : Except Err (Verdict ShowPlan) :=
   match s.verifyShow0 cfg with
   | .error e => .error e
   | .ok () =>
-    let streetNone := (s.street cfg).isNone
-    let p? : Except Err Nat := match i with
-      | some p => .ok p
-      | none =>
-        if streetNone then .error .valueError
-        else match s.showdownIndex cfg with
-          | some p => .ok p
-          | none => .error .assertionError
-    match p? with
+    match s.showPlayer cfg i with
     | .error e => .error e
     | .ok p =>
-      if p ≥ cfg.n then .error .indexError
-      else if !getB s.statuses p then .error .valueError
-      else if !streetNone && !s.showdown.contains p then .error .valueError
-      else
-        let own := s.holeOf p
-        let explicit : Except Err (Verdict (Bool × Option (List Card × List Card × List Bool))) :=
-          match arg with
-          | .status b => .ok ⟨(b, none), false⟩
-          | .none =>
-            if s.allIn then .ok ⟨(true, none), false⟩
-            else match s.canWinNow cfg env p with
-              | .error e => .error e
-              | .ok b => .ok ⟨(b, none), false⟩
-          | .cards cs =>
-            if cs.length > own.length then .error .valueError
-            else
-              let cards := cs ++ List.replicate (own.length - cs.length) Card.unknownCard
-              let hc := cards.filter Card.known
-              let hs := List.replicate hc.length true
-              let hc :=
-                if !s.streetIsLast cfg then
-                  let count := own.length - hc.length
-                  hc ++ ((own.filter Card.known).filter (fun c => !hc.contains c)).take count
-                else hc
-              let hc := hc ++ List.replicate (own.length - hc.length) Card.unknownCard
-              let hs := hs ++ List.replicate (own.length - hs.length) false
-              let extra := (dedup hc).filter (fun c => !own.contains c)
-              match s.verifyCardsConsumption cfg env (.cards extra) with
-              | .error e => .error e
-              | .ok v => .ok ⟨(true, some (cards, hc, hs)), v.warned⟩
-        match explicit with
-        | .error e => .error e
-        | .ok ⟨(status, plan), warned⟩ =>
-          let (cards, hc, hs) := match plan with
-            | some x => x
-            | none => if status then (own, own, List.replicate own.length true) else ([], [], [])
-          if cfg.tournament && status && (cards.filter Card.known).length < own.length then
-            -- all three branches of state.py raise ValueError
-            .error .valueError
-          else if (hc.zip hs).any (fun (c, st) => !c.known && st) then .error .valueError
-          else if status && !(cards.length == hc.length && hc.length == own.length
-                && own.length == hs.length && hs.length == (s.holeStatusesOf p).length) then
-            .error .assertionError
-          else if streetNone && (!status || !allB hs) then .error .valueError
-          else .ok ⟨⟨status, cards, hc, hs, p⟩, warned⟩
+      match s.showExplicit cfg env arg p with
+      | .error e => .error e
+      | .ok v => s.showFinal cfg p v.val.1 (showTriple (s.holeOf p) v.val.1 v.val.2) v.warned
 
 /-- `verify_hand_killing(i)` -/
 def verifyHandKilling (s : State) (i : Option Nat) : Except Err Nat :=
